@@ -133,6 +133,8 @@ class Builder:
             choices += ["isfilled"]
         if cfg["ticks"]:
             choices += ["tick"]
+        if cfg["deps"] and scope.owner is not None and self.chance(2):
+            return {"t": self.pick(["depjs", "depcss"])}
         kind = self.pick(choices)
         if kind == "text":
             return {"t": "text", "s": self.fresh("t")}
@@ -319,6 +321,32 @@ class Builder:
             spec["data"].append([self.fresh("id"), ["id"]])
         if self.cfg["hooks"]:
             spec["hooks"] = {"before": self.chance(40), "after": self.chance(40)}
+        if self.cfg["assets"]:
+            if self.chance(65):
+                spec["js"] = "  " if self.chance(8) else "/*js_%s*/" % name
+            if self.chance(65):
+                spec["css"] = "\n" if self.chance(8) else "/*css_%s*/" % name
+            if self.chance(55):
+                media = {}
+                if self.chance(70):
+                    files = [self.pick(["m1.js", "m2.js", "m3.js", "sub/m4.js"]) for _ in range(self.integer(1, 3))]
+                    files = list(dict.fromkeys(files))
+                    media["js"] = files[0] if len(files) == 1 and self.chance(30) else files
+                if self.chance(70):
+                    r = self.integer(0, 2)
+                    files = list(dict.fromkeys(self.pick(["s1.css", "s2.css", "s3.css"]) for _ in range(self.integer(1, 2))))
+                    if r == 0:
+                        media["css"] = files
+                    elif r == 1:
+                        media["css"] = files[0]
+                    else:
+                        media["css"] = {"all": files, "print": [self.pick(["s2.css", "p1.css"])]}
+                spec["media"] = media
+            later = [c["name"] for c in self.comps]
+            if later and self.chance(25):
+                spec["base"] = self.pick(later)
+            if self.chance(int(self.cfg.get("nonascii_pct", 12))):
+                spec["clsname"] = self.pick(["\u00dcbersicht", "Caf\u00e9", "\u041a\u043e\u043c\u043f"]) + "_%s" % name
         idvars = [v for v, s in spec["data"] if s[0] == "id"]
         scope = Scope([v for v, s in spec["data"] if s[0] != "id"], owner=name, idvar=idvars[0] if idvars else None)
         spec["tpl"] = self.nodes(scope, 0, index, 1)
@@ -341,7 +369,34 @@ class Builder:
         if not any(n["t"] == "comp" for n in walk(tpl)):
             self.budget = max(self.budget, 5)
             tpl.append(self.comp(scope, 0, None, "tpl"))
+        if self.cfg.get("extra_unrendered"):
+            # registered classes with assets that no template references
+            for i in range(self.integer(0, 2)):
+                extra = self.component(100 + i)
+                extra["tpl"] = [{"t": "text", "s": self.fresh("t")}]
+                self.comps.append(extra)
         comps = [{k: v for k, v in c.items() if not k.startswith("_")} for c in self.comps]
+        if self.cfg.get("skeleton"):
+            head = self.chance(75)
+            body = self.chance(75)
+            pre, post = [], []
+            if head:
+                pre.append({"t": "raw", "s": "<html><head><title>t</title>"})
+                if self.chance(35):
+                    pre.append({"t": "depcss"})
+                pre.append({"t": "raw", "s": "</head>"})
+            elif self.chance(25):
+                pre.append({"t": "depcss"})
+            if body:
+                pre.append({"t": "raw", "s": "<body>"})
+                if self.chance(35):
+                    post.append({"t": "depjs"})
+                post.append({"t": "raw", "s": "</body>"})
+            elif self.chance(25):
+                post.append({"t": "depjs"})
+            if head:
+                post.append({"t": "raw", "s": "</html>"})
+            tpl = pre + tpl + post
         return {"comps": comps, "page": {"ctx": ctx, "tpl": tpl}}
 
 
